@@ -315,6 +315,31 @@ func (c *cond) text() string {
 	}
 }
 
+// hasOr reports whether the condition contains a disjunction.
+func (c *cond) hasOr() bool {
+	if c == nil {
+		return false
+	}
+	if c.Op == "or" {
+		return true
+	}
+	if c.Op == "and" {
+		return c.L.hasOr() || c.R.hasOr()
+	}
+	return false
+}
+
+// keys returns the tag keys the condition names.
+func (c *cond) keys() []string {
+	if c == nil {
+		return nil
+	}
+	if c.Op == "and" || c.Op == "or" {
+		return append(c.L.keys(), c.R.keys()...)
+	}
+	return []string{c.Key}
+}
+
 // eval: the meaning of the tag filter. A series that does not carry the key of an atom is not
 // selected by the atom, negated or not (index semantics: a negated atom is "all series that have the
 // key" minus the matching ones; same reading as C10).
@@ -392,6 +417,7 @@ const (
 	sigFieldNotFound = "C12/leaf-missing-selected-field-drops-leaf-answer"
 	sigSelectStar    = "C12/select-star-field-set-of-first-response"
 	sigMultiFunc     = "C12/merge-of-field-with-several-functions-mixes-aggregates"
+	sigUnknownTagKey = "C12/leaf-unknown-tag-key-fails-whole-condition"
 )
 
 // commonFields returns the fields of the metric that every series of it carries in every row.
